@@ -202,6 +202,75 @@ func runC05Step(c *Ctx) {
 	} else {
 		c.bad("(*RuleExpression).VisitStep|own id not in scope", regs[0].mu.Pos(), "expressions of the step are checked after its own id was added to the steps scope, so a reference to the step itself is accepted: "+strings.Join(late, "; "))
 	}
+	// the id is registered whenever the step has one: apart from the `ID == nil` edge no path of VisitStep (and none of the
+	// helper that registers) returns without passing the registration
+	{
+		var skipped []string
+		anchors := map[ssa.Instruction]bool{}
+		for _, r := range regs {
+			anchors[r.anchor] = true
+		}
+		if pos, found := returnsAvoiding(fn, anchors, stepIDValues(fn, nil)); found {
+			skipped = append(skipped, p.Pos(pos))
+		}
+		for _, r := range regs {
+			if r.call == nil {
+				continue
+			}
+			h := r.mu.Parent()
+			if h == staticCallee(&r.call.Call) {
+				if pos, found := returnsAvoiding(h, map[ssa.Instruction]bool{r.mu: true}, stepIDValues(h, r.call)); found {
+					skipped = append(skipped, p.Pos(pos))
+				}
+			}
+		}
+		sort.Strings(skipped)
+		construct := "(*RuleExpression).VisitStep|registered whenever the step has an id"
+		if len(skipped) == 0 {
+			c.ok(construct, regs[0].mu.Pos(), "only the `ID == nil` edge leads to a return without the registration")
+		} else {
+			c.bad(construct, regs[0].mu.Pos(), "a step with an id can leave VisitStep without entering the steps scope, so later references to it are reported as undefined: return at "+strings.Join(skipped, ", "))
+		}
+	}
+	// nobody else adds entries to the steps scope (ids of later steps or of another job would resolve)
+	{
+		isReg := map[*ssa.MapUpdate]bool{}
+		for _, r := range regs {
+			isReg[r.mu] = true
+		}
+		var others []string
+		for _, f := range p.Funcs {
+			if !inModule(f) {
+				continue
+			}
+			fresh := map[ssa.Value]bool{}
+			for _, st := range scopeStores(f, "stepsTy") {
+				if !isNilConst(st.Val) {
+					fresh[st.Val] = true
+				}
+			}
+			eachInstr(f, func(_ *ssa.BasicBlock, _ int, in ssa.Instruction) {
+				mu, ok := in.(*ssa.MapUpdate)
+				if !ok || isReg[mu] {
+					return
+				}
+				fl, base := fieldLoad(mu.Map)
+				if fl != "ObjectType.Props" {
+					return
+				}
+				if bf, _ := fieldLoad(base); bf == "RuleExpression.stepsTy" || fresh[base] {
+					others = append(others, FuncName(f)+" at "+p.Pos(mu.Pos()))
+				}
+			})
+		}
+		sort.Strings(others)
+		construct := "RuleExpression.stepsTy|entries added by the registration only"
+		if len(others) == 0 {
+			c.ok(construct, regs[0].mu.Pos(), "no other store into the Props of the steps scope")
+		} else {
+			c.bad(construct, regs[0].mu.Pos(), "the steps scope also receives entries outside the registration of the step just checked (a step then sees ids that are not those of earlier steps): "+strings.Join(others, "; "))
+		}
+	}
 	// the key under which it is registered is the lower-cased id of this step
 	okKey := false
 	if call, ok := regs[0].mu.Key.(*ssa.Call); ok && calleeFullName(&call.Call) == "strings.ToLower" {
@@ -491,7 +560,21 @@ func runC05Needs(c *Ctx) {
 				}
 			}
 		}
-		if okKey && sameLookup && strict {
+		// every entry of Job.Needs is looked at: the loop that makes the entries is left only at its header
+		allSeen := false
+		if h, body := innermostLoop(mu.Block()); h != nil {
+			allSeen = true
+			for x := range body {
+				for _, s := range x.Succs {
+					if x != h && !body[s] {
+						allSeen = false
+					}
+				}
+			}
+		}
+		if okKey && sameLookup && strict && !allSeen {
+			c.bad(construct, mu.Pos(), "the loop over the needs entries can be left before the last entry (return/break in its body): a directly needed job listed behind the entry that ends the loop is missing from the needs scope")
+		} else if okKey && sameLookup && strict {
 			c.ok(construct, mu.Pos(), "needs.<lower id> is a strict object, present iff the job exists under the same key")
 		} else {
 			c.bad(construct, mu.Pos(), fmt.Sprintf("lower-cased key=%v, job looked up under the same key=%v, strict=%v", okKey, sameLookup, strict))
@@ -514,7 +597,21 @@ func runC05Needs(c *Ctx) {
 			}
 		}
 	})
-	if okOut {
+	// ... and what each entry carries as its member "outputs" is that object, filled from the job the entry stands for (the
+	// one looked up under the entry's key), or the outputs type of that job's workflow call
+	whyOut := ""
+	eachInstr(fn, func(_ *ssa.BasicBlock, _ int, in ssa.Instruction) {
+		if mu, ok := in.(*ssa.MapUpdate); ok {
+			if f, base := fieldLoad(mu.Map); f == "ObjectType.Props" && filled[base] {
+				if w := needsEntryOutputs(fn, mu); w != "" {
+					whyOut = w
+				}
+			}
+		}
+	})
+	if okOut && whyOut != "" {
+		c.bad("(*RuleExpression).populateDependantNeedsTypes|outputs", fn.Pos(), "needs.<job_id>.outputs does not hold the declared outputs of the needed job: "+whyOut)
+	} else if okOut {
 		c.ok("(*RuleExpression).populateDependantNeedsTypes|outputs", fn.Pos(), "strict object filled from the needed job's declared outputs")
 	} else {
 		c.bad("(*RuleExpression).populateDependantNeedsTypes|outputs", fn.Pos(), "outputs of a needed job are not a strict object of its declared outputs")
@@ -612,6 +709,17 @@ func runC05Strict(c *Ctx) {
 			c.ok("(*RuleExpression).checkMatrix|rows in a strict object", cm.Pos(), "row keys are entered under the map key into a strict object")
 		} else {
 			c.bad("(*RuleExpression).checkMatrix|rows in a strict object", cm.Pos(), "the row keys are not collected into a strict object")
+		}
+	}
+	// (a'') exactly the row keys plus the include keys: every row and every literal include assignment enters its key
+	if cm := p.Method("RuleExpression", "checkMatrix"); cm != nil {
+		for _, t := range []struct{ field, what string }{{"Matrix.Rows", "row"}, {"MatrixCombination.Assigns", "include assignment"}} {
+			construct := "(*RuleExpression).checkMatrix|every " + t.what + " enters its key"
+			if pos, why := keyEnteredForEveryElement(cm, t.field); why == "" {
+				c.ok(construct, pos, "stored on every iteration of the loop over "+t.field)
+			} else {
+				c.bad(construct, pos, "a matrix key given by a "+t.what+" may be missing from the matrix scope ("+why+"): a reference to it is reported as undefined")
+			}
 		}
 	}
 	// (b) every Loose() in the rule is guarded by an expression test
